@@ -144,8 +144,8 @@ def pyNat0 (u : Txt) : Option Nat :=
 /-- Python `int(text, 0)` -/
 def pyInt0 (t : Txt) : Option Int :=
   match t with
-  | 45 :: u => (pyNat0 u).map fun n => - (n : Int)
-  | u => (pyNat0 u).map fun n => (n : Int)
+  | 45 :: u => (pyNat0 u).map fun (n : Nat) => - Int.ofNat n
+  | u => (pyNat0 u).map fun (n : Nat) => Int.ofNat n
 
 /-! ### comment -/
 
@@ -192,11 +192,13 @@ def nameTail (restP : Nat → Bool) : Txt → Txt × Txt
   | [] => ([], [])
   | c :: cs =>
     if restP c then (c :: (nameTail restP cs).1, (nameTail restP cs).2)
-    else match c, cs with
-      | 58, 58 :: d :: ds =>
+    else if c == 58 then
+      match cs with
+      | 58 :: d :: ds =>
         if isIdFirst d then (58 :: 58 :: d :: (nameTail restP ds).1, (nameTail restP ds).2)
         else ([], c :: cs)
-      | _, _ => ([], c :: cs)
+      | _ => ([], c :: cs)
+    else ([], c :: cs)
 
 /-- `Combine(delimitedList(Combine(first + Optional(rest)), delim="::"), joinString="::")`
     after the leading white skip -/
@@ -294,7 +296,7 @@ def memMain (t : Txt) : Option (RawMem × Txt) :=
   (parenPart o.2).map fun ((b, i, s), t2) =>
     let m := maskCore t2
     ({ off := o.1, base := b, index := i, scale := s,
-       empty := o.1.isNone && b.isNone && i.isNone && s.isNone && m.isNone }, m.getD t2)
+       empty := o.1.isNone && b.isNone && i.isNone && s.isNone && m.isNone }, m.getD (skipWs t2))
 
 /-- `memory_abs = "*" + (offset | register)` -/
 def memAbs (t : Txt) : Option (RawMem × Txt) :=
